@@ -153,6 +153,11 @@ pub fn case(ch: &mut Choices, ctx: &CaseCtx) -> CaseOut {
     let mut out = CaseOut::default();
     let mut xs = xs::fresh();
     xs.set_insn_limit(Some(200_000)).unwrap();
+    // 1 case in 4 runs with the reverse-debugging log on: what the words compute must not depend on it
+    if ch.chance(1, 4) {
+        xs.set_recording_enabled(true);
+        out.class("recording-on");
+    }
     // 1 case in 8 is allowed to build maps whose keys are not mutually ordered (the known finding);
     // all others keep every map's keys within one ordered class, so the search continues behind it
     let allow_mixed = ch.chance(1, 8);
